@@ -55,8 +55,9 @@ def histories(maxlen, maxworkers, maxtasks):
 
 
 def _run(args):
-    x, hist, bound, cap = args
-    r = subprocess.run([x, "explore", hist, str(bound), "0", "1", str(cap)], capture_output=True, text=True)
+    x, hist, bound, cap = args[:4]
+    shard, nsh = (args[4], args[5]) if len(args) > 4 else (0, 1)
+    r = subprocess.run([x, "explore", hist, str(bound), str(shard), str(nsh), str(cap)], capture_output=True, text=True)
     part = core.Part()
     if r.returncode not in (0, 1) or not r.stdout.strip():
         part.violation("harness c03 %s" % hist, "driver failed rc=%d: %s" % (r.returncode, r.stderr[-400:]), {"history": hist})
@@ -72,7 +73,7 @@ def _run(args):
     for o in res["outcome_samples"]:
         part["outcomes"].add(hist + ":" + o)
     part.add("distinct_outcomes_sum", res["distinct_outcomes"])
-    part.add("histories", 1)
+    part.add("histories", 1 if shard == 0 else 0)
     if res["capped"]:
         part["capped"] = True
         part.add("histories_capped", 1)
@@ -118,7 +119,10 @@ def run(ctx):
         h4 = [h for h in histories(4, 2, 3) if h.count(",") == 3]
         jobs += [(x, h, 1, 5000) for h in h4]
         maxlen = 4
-    core.pmap(ctx, _chunk, jobs, nchunks=min(len(jobs), 16 * 8))
+        # more workers than tasks (3 workers, 2 tasks): the smallest pool in which idle workers can report completion while a
+        # busy one is still inside its task; all schedules with <= 2 preemptions, uncapped (about 4.1e6 executions), sharded
+        jobs += [(x, "c3,d2", 2, 10 ** 7, sh, 32) for sh in range(32)]
+    core.pmap(ctx, _chunk, jobs, nchunks=min(len(jobs), 16 * 8) if not ctx.thorough else len(jobs))
     ctx.extra["preemption_bound"] = bound
     ctx.extra["history_len_bound"] = maxlen
     # E5: TLC model + conformance replay
@@ -129,7 +133,8 @@ def run(ctx):
                 "inside each task). non-trivial = execution of a history that dispatches >=2 tasks on a pool with >=1 worker. "
                 "states = distinct schedule prefixes (decision nodes) visited; traces_validated = executions on the real code "
                 "+ TLC paths replayed as forced schedules" % (maxlen, ctx.q(2, 3), bound))
-    ctx.assumptions = ["sequentially consistent atomics", "cap of %d executions per history (reported if hit); thorough adds all length-4 histories at 1 preemption" % cap]
+    ctx.assumptions = ["sequentially consistent atomics", "cap of %d executions per history (reported if hit); thorough adds all length-4 histories at 1 preemption and the "
+                       "history c3,d2 (more workers than tasks) at 2 preemptions without a cap" % cap]
 
 
 def replay(ctx, path):
